@@ -111,12 +111,12 @@ fn gen_decision_op(cx: &mut Cx, _k: u64, h: &Arc<Honest>) -> Op {
     let (mut msgs, mut committed) = (h.msgs.clone(), h.committed.clone());
     let mut dm: Vec<Bytes> = h.didx.iter().map(|&i| h.msgs[i].clone()).collect();
     let mut dcm: Vec<Bytes> = h.dcidx.iter().map(|&i| h.committed[i].clone()).collect();
-    let (didx, dcidx) = (h.didx.clone(), h.dcidx.clone());
+    let (mut didx, mut dcidx) = (h.didx.clone(), h.dcidx.clone());
     let mut l = h.msgs.len();
     let mut blind = h.blind.clone();
     let which = cx.ch.choose("verifier", 5);
     // one mutation (or none)
-    let mutation = cx.ch.choose("mutation", 15);
+    let mutation = cx.ch.choose("mutation", 18);
     let mut mlabel = "honest".to_string();
     {
         let target: &mut Bytes = match which { 0 => &mut sig, 1 => &mut proof, 2 => &mut cwp, 3 => &mut bsig, _ => &mut bproof };
@@ -133,6 +133,12 @@ fn gen_decision_op(cx: &mut Cx, _k: u64, h: &Arc<Honest>) -> Op {
             9 => { s = s0.other(); mlabel = "other-suite".into(); }
             10 => { let bit = cx.ch.choose("pkbit", 768) as usize; flip(&mut pk, bit); mlabel = format!("pk-bitflip@{bit}"); }
             11 => { l = l + 1; if let Some(b) = blind.last_mut() { *b ^= 1; } mlabel = "L+1 / blind-factor altered".into(); }
+            // index lists that are not what the draft takes (ascending, one index per message): the
+            // index list alone reordered, an index listed twice with one message, a committed pair
+            // claimed through the signer lists at L + 1 + j
+            15 => { if didx.len() >= 2 && dm[0] != dm[1] { didx.swap(0, 1); mlabel = "index-list-reordered,messages-as-given".into(); } if dcidx.len() >= 2 && dcm[0] != dcm[1] { dcidx.swap(0, 1); mlabel = "index-list-reordered,messages-as-given".into(); } }
+            16 => { if !didx.is_empty() { didx.insert(0, didx[0]); mlabel = "index-duplicated-without-its-message".into(); } if !dcidx.is_empty() { dcidx.insert(0, dcidx[0]); mlabel = "index-duplicated-without-its-message".into(); } }
+            17 => { if let (Some(j), Some(c)) = (dcidx.pop(), dcm.pop()) { didx.push(l + 1 + j); dm.push(c); mlabel = "committed-pair-claimed-as-signer-pair".into(); } }
             // the same key in its 192-octet coordinate form: octets_to_pubkey of the draft knows the 96-octet form only
             14 => { if let Ok((x, y)) = api::pk_to_coordinates(&pk) { pk = [x, y].concat(); mlabel = "pk-in-uncompressed-form".into(); } }
             _ => {
